@@ -111,6 +111,11 @@ Theorem C11_hpack_table_bounded :
   t_max (d_table d) <= max_limit size evs.
 Proof. exact hpack_table_bounded. Qed.
 
+(* the hypothesis [wf] of the theorems above holds in every reachable decoder state *)
+Theorem C11_reachable_wf :
+  forall hd size evs, wf (run_events hd (decoder_new size) evs).
+Proof. exact reachable_wf. Qed.
+
 (* within the limit in force, except for known finding KF-C11-3 *)
 Theorem C11_hpack_table_within_limit_except_known :
   forall hd d frags,
